@@ -168,6 +168,9 @@ func (c *VCtx) inline(fr *Frame, st *State, fv *FnVal, args []Val) Val {
 // externalCall: unknown callee; result unconstrained, may write through slice arguments.
 func (c *VCtx) externalCall(fr *Frame, st *State, cc *ssa.CallCommon, name string, args []Val, rt types.Type) Val {
 	c.eng.Externals[name] = true
+	for _, a := range args {
+		c.publish(a)
+	}
 	for h := range c.externalMods(cc) {
 		c.havocHeap(st, h)
 	}
@@ -192,6 +195,9 @@ func (c *VCtx) knownAll(st *State, v Val) {
 // callbackCall: call of a function value that is not statically known (user callback).
 func (c *VCtx) callbackCall(fr *Frame, st *State, cc *ssa.CallCommon, f *Term, args []Val, rt types.Type) Val {
 	c.safety(fr, st, "nilfunc", Not(Eq(f, Null)), cc.Pos())
+	for _, a := range args {
+		c.publish(a)
+	}
 	c.eng.assume("user callbacks do not re-enter the object that calls them and do not touch library-internal state")
 	c.noteCallback(fr, st, f, args)
 	c.bumpCalls(st, f)
@@ -270,9 +276,16 @@ func (c *VCtx) recordRet(st *State, f *Term, v Val) {
 // spawn handles "go f(args)": the callee's precondition must hold; the callee is verified separately.
 func (c *VCtx) spawn(fr *Frame, st *State, cc *ssa.CallCommon, fv *FnVal, args []Val) {
 	c.lmSpawn()
+	c.publish(fv)
+	for _, a := range args {
+		c.publish(a)
+	}
 	if fr.contract != nil {
-		c.goCount++
-		c.runGhost(fr, st, fr.contract, fmt.Sprintf("go %d", c.goCount), nil)
+		fr.gos++
+		c.runGhost(fr, st, fr.contract, fmt.Sprintf("go %d", fr.gos), nil)
+		if fr.contract.Asserts != nil {
+			c.pointAsserts(fr, st, fmt.Sprintf("go %d", fr.gos), cc.Pos())
+		}
 	}
 	// cells captured by a spawned closure are shared from now on
 	for _, b := range append(append([]Val{}, fv.Binds...), args...) {
